@@ -2,6 +2,7 @@ import Okane.Drv.IOUtil
 import Okane.Model.ExprSyntax
 import Okane.Spec.Literal
 import Okane.Base.Num
+import Okane.Model.ImportCsvCells
 /-!
 Driver for C07.
 
@@ -63,6 +64,12 @@ def posRec (pos : String) (lit : List Char) : String :=
   | "lot" => finishV (parseValueExpr (lit ++ usd ++ "}\n".toList)) "}\n".toList plain
   | "lottotal" => finishV (parseValueExpr (lit ++ usd ++ "}}\n".toList)) "}}\n".toList plain
   | "format" | "pricedb" => finishV (amount (lit ++ usd ++ ['\n'])) ['\n'] plain
+  | "tryfrom" | "tryfromneg" =>
+    -- the library entry `expr::Amount::try_from` (`unary_amount`), modelled in Model/ImportCsvCells.lean
+    let t := (if pos == "tryfromneg" then ['-'] else []) ++ lit ++ usd
+    match Okane.Import.Cells.cellAmount t with
+    | some (d, c) => if c == "USD".toList then okRec d else "partial"
+    | none => "parse-err"
   | "bare" | "barebal" => finishV (parseValueExpr (lit ++ ['\n'])) ['\n'] plain
   | "factor" =>
     let t := '(' :: lit ++ " * 2 USD)\n".toList
